@@ -199,6 +199,8 @@ def _all_shards(tier):
         out.append({"gen": "values", "attr": 0, "vk": vk, "ns": 0, "bundle": False, "prefix_kind": "name"})
     for ns, b in ((1, True), (2, True), (4, True)):
         out.append({"gen": "values", "attr": 1, "vk": 5, "ns": ns, "bundle": b, "prefix_kind": "name"})
+    for vk in (9, 16, 6, 18):
+        out.append({"gen": "values", "attr": 0, "vk": vk, "ns": 0, "bundle": True, "prefix_kind": "name"})
     for k in range(18):
         out.append({"gen": "structure", "kind": k, "second": "same_kind", "rdf_ok": True})
     return out
